@@ -1,7 +1,7 @@
 (* C09 - elementary operators compute exactly their documented mathematical action. *)
 From MrVerif Require Import Base.Prelude Base.StarRing Base.Sums Model.OpAlg Model.ZeroPad Model.ElemOps
   Proofs.OpAlgProofs Proofs.ElemOpsProofs Proofs.AlongProofs Proofs.ElemOpsWf Proofs.ZeroPadProofs
-  Model.Wavelet Proofs.WaveletProofs Proofs.WaveletWf Proofs.WaveletPRProofs Proofs.AlongGramProofs.
+  Model.Wavelet Proofs.WaveletProofs Proofs.WaveletWf Proofs.WaveletPRProofs Proofs.AlongGramProofs Proofs.Wavelet2DGramProofs.
 
 (* zero padding / cropping keeps the centre sample at index n//2, for all sizes of either parity *)
 Theorem C09_pad_centre : forall (R : StarRing) old new (x : nat -> R), (0 < old)%nat -> (0 < new)%nat ->
@@ -117,3 +117,18 @@ Theorem C09_wavelet_isometry_along_axis : forall (R : StarRing) pre post level L
   adj (along pre post (wavedec_op level L n flo fhi glo ghi)) (fwd (along pre post (wavedec_op level L n flo fhi glo ghi)) x) j = x j.
 Proof. exact wavelet_isometry_along. Qed.
 Print Assumptions C09_wavelet_isometry_along_axis.
+
+(* ---- two dimensions (wavedec2 / waverec2): one level gives c^2 times the identity under the perfect-reconstruction condition, and for
+   orthonormal filter banks W^H W = identity at every number of levels, for every image size ---- *)
+Theorem C09_wavelet_2d_gram : forall (R : StarRing) L n1 n2 (flo fhi glo ghi : nat -> R) (c : R),
+  (2 <= L)%nat -> (1 <= n1)%nat -> (1 <= n2)%nat -> pr_cond L flo fhi glo ghi c ->
+  forall x j, (j < n1 * (n2 * 1))%nat ->
+    adj (dwt2 L n1 n2 flo fhi glo ghi) (fwd (dwt2 L n1 n2 flo fhi glo ghi) x) j = kmul c (kmul c (x j)).
+Proof. exact dwt2_gram. Qed.
+Print Assumptions C09_wavelet_2d_gram.
+Theorem C09_wavelet_2d_isometry : forall (R : StarRing) level L n1 n2 (flo fhi glo ghi : nat -> R),
+  (2 <= L)%nat -> (1 <= n1)%nat -> (1 <= n2)%nat -> pr_cond L flo fhi glo ghi k1 ->
+  forall x j, (j < n1 * (n2 * 1))%nat ->
+    adj (wavedec2_op level L n1 n2 flo fhi glo ghi) (fwd (wavedec2_op level L n1 n2 flo fhi glo ghi) x) j = x j.
+Proof. exact wavedec2_isometry. Qed.
+Print Assumptions C09_wavelet_2d_isometry.
